@@ -19,6 +19,9 @@ pub enum Item {
     Flush,
     /// reopen_output without any external action (and without a flush before it): changes nothing
     Reopen,
+    /// a record (payload of this length, marker appended) for which the format function returns an
+    /// error after it has written the text
+    RecFormatErr(usize),
 }
 
 #[derive(Clone, Debug, Serialize, Deserialize)]
@@ -46,6 +49,18 @@ fn chunk_strat(n: Option<u64>) -> BoxedStrategy<Vec<u8>> {
         1 => prop::collection::vec(any::<u8>(), 8192..8300),
     ]
     .boxed()
+}
+
+/// writes the message like `raw_format`; for a message that contains the marker it returns an
+/// error afterwards (a format function may fail; sync modes report that and write what was formatted)
+const FAIL_MARK: &str = "#fmt-err#";
+fn format_that_may_fail(w: &mut dyn std::io::Write, _now: &mut flexi_logger::DeferredNow, record: &log::Record) -> Result<(), std::io::Error> {
+    let text = record.args().to_string();
+    w.write_all(text.as_bytes())?;
+    if text.contains(FAIL_MARK) {
+        return Err(std::io::Error::other("format function reports an error"));
+    }
+    Ok(())
 }
 
 fn run_mode(case: &Case, mode: Mode, chunks: bool, sc: &Scratch, tag: &str) -> Result<(Vec<FamFile>, Model), String> {
@@ -89,13 +104,14 @@ fn run_mode(case: &Case, mode: Mode, chunks: bool, sc: &Scratch, tag: &str) -> R
                 Item::Reopen => {
                     let _ = w.reopen_outputfile();
                 }
-                Item::Rec(_) => {}
+                Item::Rec(_) | Item::RecFormatErr(_) => {}
             }
         }
         drop(handle);
         drop(w);
     } else {
         let w: FileLogWriter = flw_builder(&cfg, &dir, false, None)
+            .format(format_that_may_fail)
             .try_build()
             .map_err(|e| format!("try_build: {e:?}"))?;
         let sess = Sess::Flw(w);
@@ -115,6 +131,14 @@ fn run_mode(case: &Case, mode: Mode, chunks: bool, sc: &Scratch, tag: &str) -> R
                     if mode.is_async() {
                         std::thread::sleep(std::time::Duration::from_millis(1));
                     }
+                }
+                Item::RecFormatErr(len) => {
+                    let p = format!("{}{FAIL_MARK}", payload(0, q, *len));
+                    q += 1;
+                    let mut line = p.clone().into_bytes();
+                    line.extend_from_slice(cfg.line_ending());
+                    model.write(&line, now);
+                    sess.write(&p);
                 }
                 Item::Reopen => {
                     let _ = sess.reopen();
@@ -196,7 +220,7 @@ impl Property for P {
                 let item = if use_chunks {
                     prop_oneof![18 => chunk_strat(n).prop_map(Item::Chunk), 2 => Just(Item::Flush), 1 => Just(Item::Reopen)].boxed()
                 } else {
-                    prop_oneof![18 => crate::hist::len_strat(n, cap, le).prop_map(Item::Rec), 2 => Just(Item::Flush), 1 => Just(Item::Reopen)].boxed()
+                    prop_oneof![18 => crate::hist::len_strat(n, cap, le).prop_map(Item::Rec), 2 => Just(Item::Flush), 1 => Just(Item::Reopen), 1 => crate::hist::len_strat(n, cap, le).prop_map(Item::RecFormatErr)].boxed()
                 };
                 (Just(cfg), Just(sm), prop::collection::vec(item, 0..40))
             })
@@ -280,7 +304,7 @@ impl Property for P {
         let min_cap = caps.iter().copied().min().unwrap_or(usize::MAX);
         let big = case.items.iter().any(|i| match i {
             Item::Chunk(c) => c.len() > min_cap,
-            Item::Rec(l) => *l + 1 > min_cap,
+            Item::Rec(l) | Item::RecFormatErr(l) => *l + 1 > min_cap,
             Item::Flush | Item::Reopen => false,
         });
         if big {
